@@ -26,6 +26,12 @@ def main():
                                env=dict(os.environ, VERIF_EVIDENCE_DIR=os.path.join(V, 'out', 'seed_evidence')))
             lines = [l for l in c.stdout.split('\n') if l.startswith(('VIOLATION', 'UNDECIDED', 'KNOWN-FINDING', p + ':'))]
             res[p] = {'exit': c.returncode, 'lines': lines[:6], 'wall_s': round(time.time() - t0, 1)}
+            try:
+                ev = json.load(open(os.path.join(V, 'out', 'seed_evidence', p + '.json')))
+                res[p]['undecided_units'] = ev.get('coverage', {}).get('undecided_units')
+                res[p]['proof_failures'] = [l for l in c.stdout.split('\n') if l.strip().startswith('obligation ')][:6]
+            except Exception:
+                pass
             print(p, 'exit', c.returncode)
             for l in lines[:6]:
                 print('   ', l[:300])
